@@ -1058,7 +1058,7 @@ func (g *c20Gen) valid(flavor string) *c20Spec {
 		s.Customize = g.validHook("customize")
 		s.Customize.Related = g.rng.Pick([]string{"pods", "namespaces"})
 	}
-	if g.rng.Chance(1, 12) {
+	if g.rng.Chance(1, 24) {
 		// the constructor also accepts a hooks block whose sync hook is missing or empty
 		s.Kind = "nosync"
 		s.Customize = nil
@@ -1068,7 +1068,7 @@ func (g *c20Gen) valid(flavor string) *c20Spec {
 			s.Sync = &c20HookCfg{NoWebhook: true}
 		}
 	}
-	if g.rng.Chance(1, 14) && len(s.Children) > 0 {
+	if g.rng.Chance(1, 24) && len(s.Children) > 0 {
 		// a rule named twice
 		s.Kind = "dup-rule"
 		if flavor == "Decorator" && g.rng.Bool() {
